@@ -40,6 +40,8 @@ PLAN = {
     "C12": [
         dict(test="TestC12N", quick=(4000, 8), thorough=(150000, 8), timeout_thorough=7200),
         dict(test="TestC12R", quick=(100, 8), thorough=(1500, 8), race=True, timeout=1500, timeout_thorough=7200),
+        # ValidateBlockConsensus / GetMemberIdsFromBlockProof: sequences on one instance, hostile bytes in a reused buffer
+        dict(test="TestC12Proofs", quick=(8000, 4), thorough=(200000, 8)),
         dict(test="FuzzC12", kind="fuzz", fuzztime=300),
     ],
     "C13": [
